@@ -13,6 +13,10 @@ CHECKS = {
              note="trusted: overlay content stubbed to a recorder (content is C01), block hash = injective id; bounds: trees <= 6/7 blocks"),
  'C05': dict(text="bounded symbolic execution of get_balance_private vs get_utxos_from_chain (and the query variants) on every tree up to the bound with symbolic c and nondeterministic address-parser outcome: same cut, same errors, same computation for query and update; the value part on the overlay is decided with C01",
              note="trusted: address text codec stubbed to its three outcomes; ledger lookups are recorders; known finding F4 (cut notions differ on forks) is listed in known_findings.json"),
+ 'C14': dict(text="symbolic execution of every gated wrapper of lib.rs with all flag / network combinations enumerated and the chain height and announced-header maximum symbolic: the inner API is reached iff the statement's condition holds and a refusal happens before any state write or cycles call; NextBlockHeaders bookkeeping on every tree up to the bound with symbolic stable height",
+             note="trusted: inner API functions stubbed to recorders; Header::block_hash = injective id; BTreeMap model; all 432 flag/network combinations are additionally replayed natively through the public wrappers; send_transaction is decided with C19"),
+ 'C16': dict(text="symbolic execution of the charging code of every endpoint (real charge_cycles / verify_has_enough_cycles bodies over a model of the IC cycles API) with the whole fee table, attached cycles, instruction count and inner outcome symbolic: accepted total equals the published formula per outcome, is 0 for query variants, never exceeds the maximum, nothing is accepted on refusal; client costs of ic-cdk-bitcoin-canister vs the default fee tables from their MIR",
+             note="assumes base <= maximum and flat fee <= maximum (tables violating it are reported, not judged); native replay drives the mocked cycles API through the cfg-guarded hooks; send_transaction's charge is decided with C19"),
 }
 NA = {
 }
@@ -21,8 +25,8 @@ m = {
  "version": 1,
  "setup_cmd": "./setup.sh",
  "hooks": {"guard": "dfinity_bitcoin_canister_verif",
-           "enable": "RUSTFLAGS='--cfg dfinity_bitcoin_canister_verif' (no hook has been needed so far: the MIR dump contains private functions and the native replay drives the public API)",
-           "baseline_off_cmd": "cd /repo && cargo test --workspace --no-fail-fast --offline", "source_commits": [], "add_only": True},
+           "enable": "RUSTFLAGS='--cfg dfinity_bitcoin_canister_verif' for the native replay crate only (runtime::verif_hooks: mocked cycles API and performance counter control); the MIR is always dumped with the guard off",
+           "baseline_off_cmd": "cd /repo && cargo test --workspace --no-fail-fast --offline", "source_commits": ["3049359b"], "add_only": True},
  "engines": [
   {"name": "mirsym", "path": "mirsym/", "serves_properties": sorted(CHECKS), "kind_free_text": "symbolic execution of rustc MIR (regenerated from /repo on every run) with z3; heap shapes enumerated, scalars symbolic"},
   {"name": "replay", "path": "replay/", "serves_properties": sorted(CHECKS), "kind_free_text": "native Rust driver over the real canister code: translator validation and counterexample replay"}],
